@@ -119,4 +119,98 @@ def reuse (m : Mem) (x : StreamM) : Mem × StreamM :=
   if r2.len = 0 ∧ r2.sl.length = 1 ∧ x.send.sl.length = 0 then (m2, { x with recv := x.send, send := r2 })
   else (m2, { x with recv := r2 })
 
+/-! ### a pair of streams over one memory, as one state machine (the system the slot accounting of C09 is proved for) -/
+
+/-- pendingData.clear for one entry: a shared-memory message is given back through bufferManager.recycleBuffers -/
+def clear1 (m : Mem) (w : Wrap) : Mem :=
+  match w with
+  | .shm off => m.recycleChain m.slots.length off
+  | .fb _ => m
+
+/-- pendingData.clear -/
+def clearPending (m : Mem) (ws : List Wrap) : Mem := ws.foldl clear1 m
+
+/-- the buffer side of Stream.clean (Close): pendingData.clear, recvBuf.recycle, sendBuf.recycle -/
+def closeStream (m : Mem) (x : StreamM) : Mem :=
+  let m1 := clearPending m x.pending
+  let m2 := (x.recv.recycle m1).1
+  (x.send.recycle m2).1
+
+structure PSys where
+  m : Mem
+  a : StreamM := {}
+  b : StreamM := {}
+  deriving DecidableEq, Repr, Inhabited
+
+/-- `x = false`: end a, `x = true`: end b -/
+def PSys.get (s : PSys) (x : Bool) : StreamM := if x then s.b else s.a
+def PSys.put (s : PSys) (x : Bool) (m : Mem) (st : StreamM) : PSys :=
+  if x then { s with m := m, b := st } else { s with m := m, a := st }
+
+inductive POp where
+  | write (x : Bool) (d : List Nat)      -- BufferWriter.WriteBytes / WriteString
+  | writeByte (x : Bool) (b : Nat)       -- BufferWriter.WriteByte
+  | flush (x : Bool)                     -- Stream.Flush, delivery to the peer's pending list
+  | more (x : Bool)                      -- Stream.readMore: pendingData.moveTo(recvBuf)
+  | readBytes (x : Bool) (n : Nat)
+  | peek (x : Bool) (n : Nat)
+  | discard (x : Bool) (n : Nat)
+  | readByte (x : Bool)
+  | readString (x : Bool) (n : Nat)
+  | readInto (x : Bool) (n : Nat)
+  | release (x : Bool)                   -- ReleasePreviousRead
+  | close (x : Bool)                     -- Stream.clean
+  deriving DecidableEq, Repr
+
+/-- one operation; `none` = the implementation would panic (a reader call without enough buffered data, which
+    Stream.readMore rules out) -/
+def pstep (s : PSys) : POp → Option PSys
+  | .write x d =>
+    match (s.get x).send.writeBytes s.m d with
+    | none => none
+    | some (m', l') => some (s.put x m' { (s.get x) with send := l' })
+  | .writeByte x b =>
+    match (s.get x).send.writeByte s.m b with
+    | none => none
+    | some (m', l') => some (s.put x m' { (s.get x) with send := l' })
+  | .flush x =>
+    if (flush s.m (s.get x) (s.get (!x))).2.2.2 = .panic then none
+    else some ((s.put x (flush s.m (s.get x) (s.get (!x))).1 (flush s.m (s.get x) (s.get (!x))).2.1).put (!x)
+      (flush s.m (s.get x) (s.get (!x))).1 (flush s.m (s.get x) (s.get (!x))).2.2.1)
+  | .more x =>
+    match moveTo s.m (s.get x) with
+    | none => none
+    | some (m', st') => some (s.put x m' st')
+  | .readBytes x n =>
+    match (s.get x).recv.readBytes s.m n with
+    | none => none
+    | some (m', r', _) => some (s.put x m' { (s.get x) with recv := r' })
+  | .peek x n =>
+    match (s.get x).recv.peekBytes s.m n with
+    | none => none
+    | some (r', _) => some (s.put x s.m { (s.get x) with recv := r' })
+  | .discard x n =>
+    match (s.get x).recv.discard s.m n with
+    | none => none
+    | some (m', r', _) => some (s.put x m' { (s.get x) with recv := r' })
+  | .readByte x =>
+    match (s.get x).recv.readByte s.m with
+    | none => none
+    | some (m', r', _) => some (s.put x m' { (s.get x) with recv := r' })
+  | .readString x n =>
+    match (s.get x).recv.readString s.m n with
+    | none => none
+    | some (m', r', _) => some (s.put x m' { (s.get x) with recv := r' })
+  | .readInto x n =>
+    match (s.get x).recv.readInto s.m n with
+    | none => none
+    | some (m', r', _) => some (s.put x m' { (s.get x) with recv := r' })
+  | .release x =>
+    some (s.put x ((s.get x).recv.release s.m).1 { (s.get x) with recv := ((s.get x).recv.release s.m).2 })
+  | .close x => some (s.put x (closeStream s.m (s.get x)) { inFallback := (s.get x).inFallback })
+
+def prun : PSys → List POp → Option PSys
+  | s, [] => some s
+  | s, op :: r => match pstep s op with | none => none | some s' => prun s' r
+
 end LB
